@@ -19,7 +19,12 @@ from .smallscope import vio
 
 
 def _tmp():
-    return pathlib.Path(tempfile.mkdtemp(prefix="mcv_"))
+    # zarr stores are thousands of tiny files: use the RAM disk when there is one
+    import os
+    base = os.environ.get("VERIF_TMP")
+    if base is None and os.path.isdir("/dev/shm") and os.access("/dev/shm", os.W_OK):
+        base = "/dev/shm"
+    return pathlib.Path(tempfile.mkdtemp(prefix="mcv_", dir=base))
 
 
 # ===========================================================================
